@@ -1,0 +1,56 @@
+//go:build verif
+
+package exif2
+
+import (
+	"sync"
+	"time"
+)
+
+// Verification hooks (build tag "verif" only): control over the package's
+// process-wide state (the tag/scratch buffer pool and the time-zone cache), so
+// that a check can decide what a decode finds there.
+
+var verifNew int64
+
+// VerifResetPools gives the package a fresh buffer pool and an empty time-zone cache.
+func VerifResetPools() {
+	bufferPool = sync.Pool{New: func() interface{} { verifNew++; return new(buffer) }}
+	mutexTimeZones.Lock()
+	for k := range cacheTimeZone {
+		delete(cacheTimeZone, k)
+	}
+	mutexTimeZones.Unlock()
+	verifNew = 0
+}
+
+// VerifNewBuffers reports how many buffers the pool had to allocate since the
+// last reset (0 after a decode means it ran on a pooled buffer).
+func VerifNewBuffers() int64 { return verifNew }
+
+// VerifPoisonPool puts n buffers into the pool whose scratch area is filled
+// with fill, whose tag array repeats tags, and whose counters are length / pos.
+func VerifPoisonPool(n int, fill byte, tags []Tag, length, pos uint32) {
+	for k := 0; k < n; k++ {
+		b := new(buffer)
+		for i := range b.buf {
+			b.buf[i] = fill
+		}
+		for i := range b.tag {
+			if len(tags) > 0 {
+				b.tag[i] = tags[i%len(tags)]
+			}
+		}
+		b.len, b.pos = length, pos
+		bufferPool.Put(b)
+	}
+}
+
+// VerifZoneCacheSize reports the number of cached time zones.
+func VerifZoneCacheSize() int {
+	mutexTimeZones.RLock()
+	defer mutexTimeZones.RUnlock()
+	return len(cacheTimeZone)
+}
+
+var _ = time.UTC
